@@ -221,6 +221,10 @@ class FactClient(ir.Client):
                 base = self.canon(fn["b"])
                 facts = self._drop_subject(facts, names[0])
                 facts.add(("lt", names[0], base + "->mod"))
+        # x[k] = <non-zero constant>: the multi-word value x is non-zero (the `e == 0 => e <- 1` idiom)
+        for n in walk(e):
+            if n.get("k") == "Bin" and n["op"] == "=" and strip(n["x"]).get("k") == "Index" and int_val(n["y"]) not in (None, 0):
+                facts.add(("nz", self.canon(strip(n["x"])["b"])))
         # stores to plain members / variables invalidate flag facts about them
         for n in walk(e):
             if (n.get("k") == "Bin" and n["op"] in ir.ASSIGN_OPS) or (n.get("k") == "Un" and n["op"] in ("pre++", "pre--", "post++", "post--")):
